@@ -193,6 +193,16 @@ func pubsubHarness(rc *RunCtx) {
 			inject = func(body []byte) { nb.Route(subject, "", nil, body) }
 		case "stomp":
 			sb = NewSimStomp(rc)
+			if tp.Intn("slowread", 4) == 3 {
+				// the broker reads the publisher's connection slowly: the library's writer blocks inside a frame
+				// while the application goes on publishing (go-stomp queues up to 20 frames behind it)
+				var ds []time.Duration
+				for i := 0; i < 16; i++ {
+					ds = append(ds, []time.Duration{0, 0, time.Millisecond, 3 * time.Millisecond}[tp.Intn("slowread", 4)])
+				}
+				sb.SlowReadsNext = ds
+				rc.Fault("broker-reads-publisher-connection-slowly")
+			}
 			pc, err := sb.Connect()
 			if err != nil {
 				infra = err.Error()
@@ -530,6 +540,9 @@ func pubsubHarness(rc *RunCtx) {
 				if !strings.HasPrefix(k, "_") {
 					gh[k] = v
 				}
+			}
+			if !reflect.DeepEqual(gh, m.hdr) {
+				rc.Violate("C07", "publisher-headers-differ", key, fmt.Sprintf("%s: published with headers %q, subscriber saw %q", where, m.hdr, gh))
 			}
 			if !reflect.DeepEqual(gh, m.hdr) || m.gotCid != m.cid {
 				rc.Violate("C09", "pubsub-context-differs", key, fmt.Sprintf("%s: published headers %q cid %q, subscriber saw %q cid %q", where, m.hdr, m.cid, gh, m.gotCid))
